@@ -577,6 +577,21 @@ def rechunk(events, rng):
     return out
 
 
+def tree_eq(a, b):
+    """a == b for tree descriptions, without the interpreter's C-level recursion (the built-in comparison of tuples
+    nested some 1500 levels deep - a list nested 380 times - raises RecursionError whatever sys.setrecursionlimit says)"""
+    stack = [(a, b)]
+    while stack:
+        x, y = stack.pop()
+        if isinstance(x, (list, tuple)) and isinstance(y, (list, tuple)):
+            if type(x) != type(y) or len(x) != len(y):
+                return False
+            stack.extend(zip(x, y))
+        elif x != y:
+            return False
+    return True
+
+
 def correspond_document(chk, drv, pkg, folder, real, case, rng=None):
     """model vs real LoadParser for one (sub-)document of a package: the sections after all parts were read.
     `real` = loaded_sections(document), taken right after load() (a later save() moves the generator)"""
@@ -602,7 +617,7 @@ def correspond_document(chk, drv, pkg, folder, real, case, rng=None):
             chk.corr_diff(case, repr(real.get('@' + sec))[:300], repr(model.get('@' + sec))[:300],
                           'attributes of the section object %s of %r after load (real vs model)' % (sec, folder or '/'))
             return 'diff'
-        if model.get(sec) != real.get(sec):
+        if not tree_eq(model.get(sec), real.get(sec)):
             a = ('E', u'', sec, [], real.get(sec) or []); b = ('E', u'', sec, [], model.get(sec) or [])
             d = diff(a, b)[:1] or [X.first_diff(a, b)]
             chk.corr_diff(case, repr(d)[:400], 'model differs', 'section %s of %r after load (real vs model)' % (sec, folder or '/'))
